@@ -418,9 +418,10 @@ class Schema(dict, metaclass=LogicalMeta):
                 f"{self.__class__}: "
                 f"Attempt to pop item: [{repr(key)}] in immutable schema"
             )
+        args = () if unprovided(default) else (default,)
         field = self.__parser__.get_field(key)
         if not field:
-            return super().pop(key)
+            return super().pop(key, *args)
         if field.immutable:
             raise exc.DeleteError(
                 f"{self.__name__}: Attempt to pop immutable item: [{repr(key)}]"
@@ -429,8 +430,10 @@ class Schema(dict, metaclass=LogicalMeta):
             raise exc.DeleteError(
                 f"{self.__name__}: Attempt to delete required schema key: {repr(key)}"
             )
-        args = () if unprovided(default) else (default,)
-        return super().pop(field.name, *args)
+        value = super().pop(field.name, *args)
+        # the attribute view must not keep the popped value
+        self.__dict__.pop(field.attname, None)
+        return value
 
     def update(self, __m=None, **kwargs):
         if self.__options__.immutable:
